@@ -145,29 +145,85 @@ def is_num(x):
     return isinstance(x, (int, float)) and not isinstance(x, bool)
 
 
-def decode_stream(g, st):
-    """decoded data of a stream by the filters the oracle knows; None if a filter is unknown"""
+def filter_chain(g, st):
+    """[(filter name bytes | None, parms dict | None)] in decoding order (Table 5: /Filter a name or an array,
+    /DecodeParms a dictionary or an array parallel to it)"""
     f = deref(g, st.d.get("Filter"))
     names = [] if f is None else ([deref(g, x) for x in f] if isinstance(f, list) else [f])
+    p = deref(g, st.d.get("DecodeParms"))
+    parms = [] if p is None else ([deref(g, x) for x in p] if isinstance(p, list) else [p])
+    out = []
+    for i, n in enumerate(names):
+        pd = parms[i] if i < len(parms) else None
+        out.append((n.s if isinstance(n, Name) else None, pd if isinstance(pd, dict) else None))
+    return out
+
+
+ABBREV = {b"AHx": b"ASCIIHexDecode", b"A85": b"ASCII85Decode", b"Fl": b"FlateDecode", b"RL": b"RunLengthDecode", b"LZW": b"LZWDecode",
+          b"DCT": b"DCTDecode", b"CCF": b"CCITTFaxDecode"}
+
+
+def decode_prefix(g, st):
+    """undo the filters of a stream as far as the oracle can: -> (data after the decodable prefix of the chain,
+    [names of the filters that remain]).  An image codec (DCTDecode, JPXDecode, …), a predictor or damaged data
+    stop the decoding there; what remains is compared as it is."""
+    chain = filter_chain(g, st)
     data = st.data
-    for n in names:
-        s = n.s if isinstance(n, Name) else None
+    for i, (s, pd) in enumerate(chain):
+        s = ABBREV.get(s, s)
+        pd = {k: deref(g, v) for k, v in (pd or {}).items()}
         try:
-            if s in (b"ASCIIHexDecode", b"AHx"):
-                data = codecs.hex_decode(data)
-            elif s in (b"ASCII85Decode", b"A85"):
-                data = codecs.a85_decode(data)
-            elif s in (b"FlateDecode", b"Fl"):
-                if deref(g, st.d.get("DecodeParms")) not in (None, {}):
-                    return None
-                data = zlib.decompress(data)
-            elif s in (b"RunLengthDecode", b"RL"):
-                data = codecs.rle_decode(data)
+            if s == b"ASCIIHexDecode":
+                nd = codecs.hex_decode(data)
+            elif s == b"ASCII85Decode":
+                nd = codecs.a85_decode(data)
+            elif s == b"RunLengthDecode":
+                nd = codecs.rle_decode(data)
+            elif s == b"FlateDecode" and pd.get("Predictor", 1) == 1:
+                nd = zlib.decompress(data)
+            elif s == b"LZWDecode" and pd.get("Predictor", 1) == 1:
+                nd = codecs.lzw_decode(data, pd.get("EarlyChange", 1))
             else:
-                return None
+                nd = None
         except Exception:
-            return None
-    return data
+            nd = None
+        if nd is None:
+            return data, [ABBREV.get(x, x) for x, _ in chain[i:]]
+        data = nd
+    return data, []
+
+
+def decode_stream(g, st):
+    """decoded data of a stream by the filters the oracle knows; None if a filter is unknown"""
+    data, rest = decode_prefix(g, st)
+    return data if not rest else None
+
+
+def stream_data_problem(gs, a, gn, b):
+    """None if the data of the copy `b` equals the original's `a` — ISO 32000-1 §7.3.8: a stream is its dictionary and
+    its bytes *as interpreted through /Filter*.  Equal when the raw bytes and the filter chains are equal; or, when the
+    copy was re-encoded, when both decode (as far as the oracle can undo the chain) to the same bytes with the same
+    filters still to be applied.  In both cases the decodable prefix must decode alike: raw bytes that are equal under
+    different filters, or decoded bytes stored under the original's filters, are different data."""
+    ca, cb = filter_chain(gs, a), filter_chain(gn, b)
+    na, nb = [ABBREV.get(x, x) for x, _ in ca], [ABBREV.get(x, x) for x, _ in cb]
+    xa, ra = decode_prefix(gs, a)
+    xb, rb = decode_prefix(gn, b)
+    if a.data == b.data and na == nb:
+        if (xa, ra) != (xb, rb):
+            return "same raw bytes and filters but the decoding parameters differ (%d / %d decoded bytes)" % (len(xa), len(xb))
+        return None
+    if ra != rb:
+        return "stream data differs: %d / %d raw bytes, filters %s / %s (not decodable to a common form: %s / %s remain)" % (
+            len(a.data), len(b.data), _fl(na), _fl(nb), _fl(ra), _fl(rb))
+    if xa != xb:
+        return "stream data differs: %d / %d raw bytes under filters %s / %s decode to different data (%d / %d bytes)" % (
+            len(a.data), len(b.data), _fl(na), _fl(nb), len(xa), len(xb))
+    return None
+
+
+def _fl(names):
+    return "[" + " ".join((n or b"?").decode("latin-1") for n in names) + "]"
 
 
 def deref(g, v, limit=32):
@@ -235,10 +291,9 @@ class Matcher:
             if lb != len(b.data):
                 raise Diff("%s: /Length %r of the copy differs from its %d data bytes" % (path, lb, len(b.data)))
             self.eq(da, db, path + "{stream}", top_ignore)
-            if a.data != b.data or canon_model(deref(self.gs, a.d.get("Filter"))) != canon_model(deref(self.gn, b.d.get("Filter"))):
-                xa, xb = decode_stream(self.gs, a), decode_stream(self.gn, b)
-                if xa is None or xb is None or xa != xb:
-                    raise Diff("%s: stream data differs (%d / %d raw bytes)" % (path, len(a.data), len(b.data)))
+            why = stream_data_problem(self.gs, a, self.gn, b)
+            if why:
+                raise Diff("%s: %s" % (path, why))
             return
         if type(a) != type(b) and not (isinstance(a, (list, tuple)) and isinstance(b, (list, tuple))):
             raise Diff("%s: %r against %r" % (path, _short(a), _short(b)))
